@@ -1955,6 +1955,69 @@ pub fn vh_awalk(a: &Args) {
     println!("events={} histories={h}", out.finish());
 }
 
+/// `vh certwalk` (certification build only): every command of the TS009 certification protocol, well-formed and
+/// malformed, as the FPort-224 payload of an authentic downlink in RX1 (and, for Class C, outside a procedure),
+/// followed by two more uplinks.
+pub fn vh_certwalk(a: &Args) {
+    let regions: Vec<String> = a.get("regions").unwrap_or("EU868").split(',').map(|s| s.to_string()).collect();
+    let fronts: Vec<String> = a.get("fronts").unwrap_or("async,asyncc,nb").split(',').map(|s| s.to_string()).collect();
+    let mut payloads: Vec<Vec<u8>> = vec![
+        vec![], vec![0x01], vec![0x02], vec![0x04], vec![0x04, 0], vec![0x04, 1], vec![0x04, 2], vec![0x04, 255],
+        vec![0x06], vec![0x06, 0], vec![0x06, 5], vec![0x06, 10], vec![0x06, 11], vec![0x06, 255],
+        vec![0x07], vec![0x07, 0], vec![0x07, 1], vec![0x07, 2], vec![0x07, 3], vec![0x07, 1, 9, 9],
+        vec![0x08], vec![0x08, 0xff], vec![0x08, 1, 2, 3, 4, 5, 6, 7, 8, 9, 10],
+        vec![0x09], vec![0x09, 1], vec![0x20], vec![0x7f], vec![0x55], vec![0x00], vec![0x03, 1], vec![0x05, 1],
+        vec![0x04, 1, 0x07, 2], vec![0x04, 9, 0x06, 3], vec![0x09, 0x7f], vec![0x01, 0x02],
+    ];
+    for n in [40usize, 50, 51, 52, 100, 200, 220, 241, 242] {
+        let mut v = vec![0x08u8];
+        v.extend((0..n).map(|i| (i * 7) as u8));
+        payloads.push(v);
+    }
+    let mut out = crate::cli::Shards::create(&a.out, "mac", a.shards);
+    let key = [1u8; 16];
+    let addr = [1u8, 2, 3, 4];
+    let mut h = 0usize;
+    for region in &regions {
+        for front in &fronts {
+            let (fr, classc) = match front.as_str() { "nb" => ("nb", false), "async" => ("async", false), _ => ("async", true) };
+            for (pi, pl) in payloads.iter().enumerate() {
+                for variant in 0..(if classc { 3 } else { 2 }) {
+                    let ops = vec![
+                        Op::Reset { region: region.clone(), front: fr.into(), classc, board: 0, bias_sb: 0, bias_retries: 1,
+                                    lead: 10, buffer: 10, offset: 0, duration: 500, session: None },
+                        Op::JoinAbp { nwk: key, app: key, addr },
+                        Op::SetDr { dr: if pl.len() > 45 { 5 } else { [0u8, 3, 5][pi % 3] } },
+                    ];
+                    let mut idx = 0usize;
+                    let pl = pl.clone();
+                    let mut g = |view: &View| -> Option<Op> {
+                        idx += 1;
+                        if idx > 4 {
+                            return None;
+                        }
+                        let mut plan = Proc { tx: "done".into(), ts: 100, fault: -1, ..Default::default() };
+                        let (nwk, app, ad) = view.keys.unwrap_or((key, key, addr));
+                        let net = Net { nwk, app, addr: ad, sent: vec![] };
+                        let n = view.fcnt_down.map(|x| x + 1).unwrap_or(0);
+                        let f = Frame { bytes: net.data(n, variant == 1, false, &[], 224, &pl, false, false), snr: 3, intent: format!("cert:{pi}") };
+                        if idx == 2 {
+                            if variant == 2 {
+                                return Some(Op::Rxc { frames: vec![f] });
+                            }
+                            if h % 2 == 0 { plan.rx1.push(f) } else { plan.rx2.push(f) }
+                        }
+                        Some(Op::Send { port: 1, data: vec![7], confirmed: idx == 3, draws: vec![], plan })
+                    };
+                    let _ = run_history(out.shard(h), &ops, a.seed ^ h as u64, Some(&mut g));
+                    h += 1;
+                }
+            }
+        }
+    }
+    println!("events={} histories={h}", out.finish());
+}
+
 /// `vh macreplay in=FILE`: re-drive a recorded history ({"ops":[...]}) on the current tree.
 pub fn vh_macreplay(a: &Args) {
     let text = std::fs::read_to_string(a.get("in").expect("in=FILE")).unwrap();
